@@ -123,18 +123,16 @@ func runC08(e *Env) {
 			gen(append(p, o), max)
 		}
 	}
-	maxLen := 2
-	if e.Thorough {
-		maxLen = 3
-	}
+	maxLen := 3
 	gen(nil, maxLen)
-	ns := []int{1, 2, 3, 4, 5, 8, 16, 17, 32, 33, 64, 127, 128, 255, 256}
+	var ns []int
+	for n := 1; n <= 64; n++ {
+		ns = append(ns, n)
+	}
+	ns = append(ns, 127, 128, 255, 256, 1000)
+	short := 8
 	if e.Thorough {
-		ns = nil
-		for n := 1; n <= 64; n++ {
-			ns = append(ns, n)
-		}
-		ns = append(ns, 127, 128, 255, 256)
+		short = 24
 	}
 	type job struct {
 		h []int
@@ -143,7 +141,7 @@ func runC08(e *Env) {
 	var jobs []job
 	for _, h := range hist {
 		for _, n := range ns {
-			if len(h) == 3 && n > 8 {
+			if len(h) == 3 && n > short {
 				continue
 			}
 			jobs = append(jobs, job{h, n})
